@@ -198,13 +198,13 @@ def data_libraries(tier, seed):
     viol, n, samples = [], 0, []
     tmp = tempfile.mkdtemp(prefix='c14_')
     try:
-        shutil.copytree('/repo/pgradd/data', os.path.join(tmp, 'relocated'))
+        shutil.copytree(source.DATA_DIR, os.path.join(tmp, 'relocated'))
         from concurrent.futures import ThreadPoolExecutor
         jobs = {}
         with ThreadPoolExecutor(max_workers=9) as ex:
             for name in real.LIBS:
                 jobs[(name, 'by name')] = ex.submit(fingerprint, name)
-                jobs[(name, 'by path')] = ex.submit(fingerprint, os.path.join('/repo/pgradd/data', name, 'library.yaml'))
+                jobs[(name, 'by path')] = ex.submit(fingerprint, os.path.join(source.DATA_DIR, name, 'library.yaml'))
                 jobs[(name, 'relocated (pgradd_DATA_DIR)')] = ex.submit(fingerprint, name, {'pgradd_DATA_DIR': os.path.join(tmp, 'relocated')})
             allfp = {k: f.result() for k, f in jobs.items()}
         for name in real.LIBS:
@@ -235,7 +235,7 @@ def data_libraries(tier, seed):
                 if bad:
                     viol.append({'id': '%s-%s' % (name, g), 'input': {'library': name, 'group': str(g)}, 'observed': bad[:4], 'expected': 'finite plain numbers over the valid range'})
             # scheme: patterns readable, remaps well-formed and chain-free
-            d = yaml.safe_load(open(os.path.join('/repo/pgradd/data', name, 'scheme.yaml')))
+            d = yaml.safe_load(open(os.path.join(source.DATA_DIR, name, 'scheme.yaml')))
             for sect in ('patterns', 'other_descriptors'):
                 for e in d.get(sect) or []:
                     n += 1
